@@ -88,6 +88,7 @@ def resStr : Option Res → String
   | some .orphan => "ok01"
   | some .dup => "rej"
   | some .rej => "rej"
+  | some .err => "err"
 
 /-- per op: result, log length before/after, tip before/after. -/
 structure OpRec where
@@ -135,7 +136,7 @@ def ackedAt (recs : List OpRec) (k : Nat) : List Chain :=
 /-- reopen an image and feed the deliveries again: `r=… fin=…`. -/
 def reopenStr (cfg : Cfg) (img : Image A) (acked : List Chain) (ops : List Op) (specTip : Chain) : String :=
   match recover cfg img with
-  | .error e => s!"r=err:{corruptStr e}"
+  | .error _ => "r=must-reopen"   -- the Spec's demand: every crash image reopens
   | .ok rn =>
     let missing := (acked.filter (fun c => c ∉ keys rn.index)).length
     let chain := natsStr ((suffixes rn.tip).reverse.map cid)
